@@ -71,18 +71,25 @@ Example literal_examples :
 Proof. vm_compute. repeat split; reflexivity. Qed.
 
 (** * layout (proofs/LayoutProofs.v)
-    [renders e text]: text is the expression e written with ANY amount of white space (space, tab, newline,
-    form feed, carriage return) after an opening bracket, between list elements and before a closing bracket
-    (the empty list is written "()" only: "( )" is a parse error in the implementation).  For the expression
+    [gap g]: g consists of white space (space, tab, newline, form feed, carriage return) and ;-comments, each comment
+    running to a line break.  [renders e text]: text is the expression e written with ANY gap after an opening
+    bracket, and any gap that is empty or starts with white space between list elements and before a closing
+    bracket (the empty list is written "()" only: "( )" is a parse error in the implementation).  For the expression
     class of C11 ([RoundTrip.simple]: integers, strings, plain symbols, booleans, operators, nested lists) every
-    such text, also surrounded by white space, reads as e. *)
+    such text, also surrounded by gaps -- the last one may end in a comment without line break -- reads as e. *)
 From WalModel.proofs Require Import RoundTrip LayoutProofs.
 
 Theorem layout_does_not_matter : forall e text lead trail,
-  renders e text -> simple e = true -> wsp lead -> wsp trail ->
+  renders e text -> simple e = true -> gap lead -> tgap trail ->
   read_sexpr (lead ++ text ++ trail) = ROk e "".
 Proof. exact read_with_layout. Qed.
 Print Assumptions layout_does_not_matter.
+
+Theorem white_space_does_not_matter : forall e text lead trail,
+  renders e text -> simple e = true -> wsp lead -> wsp trail ->
+  read_sexpr (lead ++ text ++ trail) = ROk e "".
+Proof. exact read_with_white_space. Qed.
+Print Assumptions white_space_does_not_matter.
 
 Theorem layout_in_context : forall e text, renders e text -> simple e = true ->
   (forall f rest, (5 * vsize e + 4 <= f)%nat -> delim rest -> p_sexpr f (text ++ rest) = ROk e (inter rest)) /\
@@ -90,15 +97,57 @@ Theorem layout_in_context : forall e text, renders e text -> simple e = true ->
 Proof. exact layout_roundtrip. Qed.
 Print Assumptions layout_in_context.
 
+(** what the gaps are *)
+Theorem gap_is : forall g, gap g <->
+  (g = "" \/ (exists c w, g = String c w /\ is_ws c = true /\ gap w) \/
+   (exists body n w, g = String ";"%char (body ++ String n w) /\
+                     sall (fun c => negb (is_nl c) && plain_char c) body = true /\ is_nl n = true /\ gap w)).
+Proof.
+  intros g. split.
+  - intros H. destruct H as [|c w Hc Hw|body n w Hb Hn Hw]; [left; reflexivity|right; left|right; right]; eauto 10.
+  - intros [->|[(c & w & -> & Hc & Hw)|(body & n & w & -> & Hb & Hn & Hw)]]; constructor; assumption.
+Qed.
+Print Assumptions gap_is.
+
+Theorem separating_and_trailing_gaps : forall t,
+  (wgap t <-> gap t /\ match t with EmptyString => True | String c _ => is_ws c = true end) /\
+  (tgap t <-> exists g tail, t = g ++ tail /\ wgap g /\ (g = "" -> tail = "") /\
+                (tail = "" \/ exists body, tail = String ";"%char body /\
+                                 sall (fun c => negb (is_nl c) && plain_char c) body = true)).
+Proof. intros t. split; reflexivity. Qed.
+Print Assumptions separating_and_trailing_gaps.
+
+Ltac ws := first [apply wsp_wgap; reflexivity | apply wsp_gap; reflexivity].
 Example a_layout :
   renders (WL [VOp OAdd; VInt 1; WL [VSym "f" None; VStr "s"]])
           ("(" ++ String (ascii_of_N 10) "  " ++ "+" ++ "   " ++ "1" ++ String (ascii_of_N 9) "" ++ ("(" ++ "" ++ "f" ++ " " ++ """s""" ++ " " ++ ")") ++ "" ++ ")").
 Proof.
-  apply (r_list (VOp OAdd) _ (String (ascii_of_N 10) "  ")); [reflexivity|].
-  apply (b_cons (VOp OAdd) (VInt 1) _ "+" "   "); [apply (r_atom (VOp OAdd)); discriminate|reflexivity|discriminate|].
-  apply (b_cons (VInt 1) _ _ "1" (String (ascii_of_N 9) "")); [apply (r_atom (VInt 1)); discriminate|reflexivity|discriminate|].
-  apply (b_last _ ("(" ++ "" ++ "f" ++ " " ++ """s""" ++ " " ++ ")") ""); [|reflexivity].
-  apply (r_list (VSym "f" None) _ ""); [reflexivity|].
-  apply (b_cons (VSym "f" None) (VStr "s") [] "f" " "); [apply (r_atom (VSym "f" None)); discriminate|reflexivity|discriminate|].
-  apply (b_last (VStr "s") """s""" " "); [apply (r_atom (VStr "s")); discriminate|reflexivity].
+  apply (r_list (VOp OAdd) _ (String (ascii_of_N 10) "  ")); [ws|].
+  apply (b_cons (VOp OAdd) (VInt 1) _ "+" "   "); [apply (r_atom (VOp OAdd)); discriminate|ws|discriminate|].
+  apply (b_cons (VInt 1) _ _ "1" (String (ascii_of_N 9) "")); [apply (r_atom (VInt 1)); discriminate|ws|discriminate|].
+  apply (b_last _ ("(" ++ "" ++ "f" ++ " " ++ """s""" ++ " " ++ ")") ""); [|ws].
+  apply (r_list (VSym "f" None) _ ""); [ws|].
+  apply (b_cons (VSym "f" None) (VStr "s") [] "f" " "); [apply (r_atom (VSym "f" None)); discriminate|ws|discriminate|].
+  apply (b_last (VStr "s") """s""" " "); [apply (r_atom (VStr "s")); discriminate|ws].
+Qed.
+
+(** comments between the tokens:   (; sum<nl>  + ; op<nl> 1 2)  ; done   *)
+Definition c1 : string := String ";"%char (" sum" ++ String (ascii_of_N 10) "  ").
+Definition c2 : string := String " "%char (String ";"%char (" op" ++ String (ascii_of_N 10) " ")).
+Example a_gap : gap c1 /\ wgap c2.
+Proof.
+  split.
+  - apply (g_comment " sum" (ascii_of_N 10) "  "); [reflexivity|reflexivity|apply wsp_gap; reflexivity].
+  - split; [|reflexivity]. apply g_ws; [reflexivity|].
+    apply (g_comment " op" (ascii_of_N 10) " "); [reflexivity|reflexivity|apply wsp_gap; reflexivity].
+Qed.
+Example a_layout_with_comments :
+  read_sexpr ("" ++ ("(" ++ c1 ++ "+" ++ c2 ++ "1" ++ " " ++ "2" ++ "" ++ ")") ++ "  ; done") = ROk (WL [VOp OAdd; VInt 1; VInt 2]) "".
+Proof.
+  apply layout_does_not_matter; [|reflexivity|constructor|].
+  - apply (r_list (VOp OAdd) _ c1); [apply a_gap|].
+    apply (b_cons (VOp OAdd) (VInt 1) _ "+" c2); [apply (r_atom (VOp OAdd)); discriminate|apply a_gap|discriminate|].
+    apply (b_cons (VInt 1) (VInt 2) [] "1" " "); [apply (r_atom (VInt 1)); discriminate|ws|discriminate|].
+    apply (b_last (VInt 2) "2" ""); [apply (r_atom (VInt 2)); discriminate|ws].
+  - exists "  ", "; done". repeat split; [ws|discriminate|]. right. exists " done". split; reflexivity.
 Qed.
